@@ -141,6 +141,11 @@ def run(ctx):
         gen = subprocess.run([vf.harness_bin('worker', cfg), 'gen'], capture_output=True, text=True).stdout.strip().split('\n')
         objs = [(l.split(' ')[0], bytes.fromhex(l.split(' ')[1])) for l in gen]
         objfile = f'{vf.ROOT}/.tmp/c14-objects-{cfg}.txt'; vf.os.makedirs(vf.ROOT + '/.tmp', exist_ok=True); open(objfile, 'w').write('\n'.join(gen) + '\n')
+        # the legacy structure format (version tag 0, no identifier counter at the end) is still read: mutate it as well
+        for kind, b in list(objs):
+            if kind == 'ST' and len(b) > 3 and b[0] == 1:
+                v1 = bytes([0]) + b[1:-1]          # identifiers below 128: the counter is the last byte
+                objs.append(('ST', v1))
         if cfg == 'alt': objs = [o for o in objs if o[0] in ('USK', 'ENC', 'HDR')][:4]       # the alternative build: the objects whose layout depends on the sizes
         cases = []
         if cfg == 'default': cases += [(l.split(' ')[0], 'corpus', bytes.fromhex(l.split(' ')[1])) for l in corpus]
